@@ -97,11 +97,15 @@ def drive_products(rec, ells):
     events = []
     for ell in ells:
         for (kind, lx, ly) in [("baa", "a", "a"), ("bbb", "b", "b"), ("bbc", "b", "c"), ("x2c1", "b", "c"), ("x2c2", "b", "c")]:
-            for pat in ("max", "alt"):
+            for pat in ("max", "alt", "single"):
                 xe = 2 if kind.startswith("x2") else 1
                 ye = {"x2c1": 2, "x2c2": 4}.get(kind, 1)
-                xs = [c10.lanes(qc, lx, pat, rng, i) for i in range(ell * xe)]
-                ys = [c10.lanes(qc, ly, "max" if pat == "max" else "noncanon", rng, i) for i in range(ell * ye)]
+                if pat == "single":     # one maximal term (the last one) among zeros: each term must be counted exactly once
+                    xs = [c10.lanes(qc, lx, "max", rng, i) if i >= (ell - 1) * xe else [0] * (8 if lx == "c" else 4) for i in range(ell * xe)]
+                    ys = [c10.lanes(qc, ly, "max", rng, i) for i in range(ell * ye)]
+                else:
+                    xs = [c10.lanes(qc, lx, pat, rng, i) for i in range(ell * xe)]
+                    ys = [c10.lanes(qc, ly, "max" if pat == "max" else "noncanon", rng, i) for i in range(ell * ye)]
                 got = {}
                 for impl in ("ref", "avx2"):
                     label = "worst-case q120 product %s_%s ell=%d pattern=%s" % (kind, impl, ell, pat)
@@ -131,18 +135,27 @@ def run(chk, replay=None):
     jobs = [("q120 table metadata", drive_meta, (ns,))]
     stage_ns = [2, 4, 16, 64, 512, 2048, 4096] if quick else [2, 4, 8, 16, 32, 64, 128, 256, 512, 1024, 2048, 4096, 8192, 32768]
     jobs += [("staged NTT runs n in %s" % stage_ns[i::4], drive_stages, (stage_ns[i::4], quick)) for i in range(4)]
-    jobs += [("worst-case products", drive_products, ([0, 1, 100, 10000] if quick else [0, 1, 2, 100, 5000, 9999, 10000],))]
-    if not quick:
-        jobs += [("worst-case products (ell=10000)", drive_products, ([10000],))]
-    res = isolated_many(chk, jobs, timeout=2400, nproc=6)
+    ells = [0, 1, 3, 102, 9999, 10000] if quick else [0, 1, 2, 3, 5, 6, 7, 100, 101, 4999, 5000, 8193, 9998, 9999, 10000]
+    jobs += [("worst-case products ell in %s" % [e for e in ells if e < 1000], drive_products, ([e for e in ells if e < 1000],))]
+    jobs += [("worst-case products ell=%d" % e, drive_products, ([e],)) for e in ells if e >= 1000]      # one job per long length
+    res = isolated_many(chk, jobs, timeout=2400, nproc=10)
     # stateful events (NttMeta followed by its stages) must stay together: one TLC process per job
     total, allbad = 0, 0
-    for d in res:
+    from concurrent.futures import ThreadPoolExecutor
+
+    def validate(args):
+        idx, d = args
+        if not d:
+            return None
+        clean_ = [{k: v for k, v in ev.items() if not k.startswith("_")} for ev in d["events"]]
+        return clean_, validate_events("Q120Trace", "Q120Trace.cfg", clean_, "c04-j%d" % idx, nproc=1, timeout=3000, xmx="8g")
+    with ThreadPoolExecutor(max_workers=8) as ex:
+        validated = list(ex.map(validate, enumerate(res)))
+    for d, v in zip(res, validated):
         if not d:
             continue
         events = d["events"]
-        clean = [{k: v for k, v in ev.items() if not k.startswith("_")} for ev in events]
-        bad, results = validate_events("Q120Trace", "Q120Trace.cfg", clean, "c04-%d" % total, nproc=1, timeout=3000, xmx="8g")
+        clean, (bad, results) = v
         for rr in results:
             chk.add_tlc(rr, "certificate evaluation / trace validation")
         total += len(events)
